@@ -1,7 +1,10 @@
 """C07 — a subgroup / sub-command choice selects the type, its defaults and its options."""
 from __future__ import annotations
 
+import glob
 import itertools
+import json
+import os
 import random
 
 from coqemit import cbool, clist, copt, cpair, cstr, cstrlist, cZ, outcome
@@ -315,18 +318,29 @@ def cmd_cases(rng, n):
     return out
 
 
+def corpus():
+    """minimised past failures (corpus/C07/*.json, each {"case": ...}), replayed first in every run"""
+    d = os.path.join(os.path.dirname(os.path.dirname(os.path.dirname(os.path.abspath(__file__)))), "corpus", "C07")
+    out = []
+    for f in sorted(glob.glob(os.path.join(d, "*.json"))):
+        c = json.load(open(f)).get("case")
+        if isinstance(c, dict) and c.get("kind") in ("sg", "cmd"):
+            out.append(c)
+    return out
+
+
 def gen(tier, seed):
     rng = random.Random(f"C07-{seed}")
-    cases = []
+    cases = corpus()
     cases += abbrev_cases(rng, 0)
-    ntrees, per_tree = (44, 14) if tier == "quick" else (420, 30)
+    ntrees, per_tree = (44, 14) if tier == "quick" else (200, 24)
     maxdepth = 2 if tier == "quick" else 3
     for i in range(ntrees):
         counter, pool = [0], []
         depth = 1 if i % 4 == 0 else (2 if (i % 4 != 3 or maxdepth == 2) else 3)
         tree = gen_class(rng, depth, counter, pool, nfields=1 + (i % 2))
         cases += cases_for_tree(tree, rng, per_tree if depth < 3 else per_tree // 2)
-    cases += cmd_cases(rng, 220 if tier == "quick" else 3000)
+    cases += cmd_cases(rng, 220 if tier == "quick" else 1500)
     return cases
 
 
@@ -845,7 +859,7 @@ def features(case, obs):
     if case["kind"] == "sg":
         kinds = sorted({a["kind"] for a in _alts(case["tree"])})
         out.update({"depth": _depth(case["tree"]), "ntoks": min(len(obs["toks"]), 8), "alt-kinds": "+".join(kinds),
-                    "tok-kinds": "+".join(sorted({t["k"] for t in obs["toks"]})) or "none", "rounds": obs["rounds"],
+                    "tok-kinds": "+".join(sorted({t["k"] for t in obs["toks"]})) or "none", "subgroup-scans": obs["rounds"],
                     "renamed": any("." in o_.lstrip("-") for _, os_ in obs["table"] for o_ in os_), "feature": _feature(case, obs)})
     else:
         out.update({"members": len(case["members"]), "default": case["default"] is not None, "name": "none" if case["name"] is None else
